@@ -360,8 +360,6 @@ mod xcpu {
     pub fn arm(out_fd: i32) {
         OUT_FD.store(out_fd, Ordering::SeqCst);
         ARMED.store(true, Ordering::SeqCst);
-        // resolve the symbolizer's lazy state outside the handler
-        let _ = std::backtrace::Backtrace::force_capture().to_string();
         unsafe {
             libc::signal(libc::SIGXCPU, on_xcpu as extern "C" fn(libc::c_int) as libc::sighandler_t);
         }
@@ -388,6 +386,12 @@ fn worker_run(first_pass_s: u64) -> i32 {
         libc::dup2(quiet::real_stdout_fd(), 2);
     }
     xcpu::arm(quiet::real_stdout_fd());
+    if first_pass_s > 0 {
+        // batch workers yield to the single-pair children that run under the full watchdog
+        unsafe {
+            libc::nice(5);
+        }
+    }
     let text = read_stdin();
     let empty = Facts::new();
     let small = small_facts();
@@ -855,8 +859,8 @@ fn from_parts(j: &Json) -> Option<String> {
 #[derive(Clone, Debug)]
 struct Case {
     input: String,
-    /// index into ENTRIES, or None = all entry points
-    entry: Option<usize>,
+    /// indices into ENTRIES; empty = all entry points
+    entries: Vec<usize>,
     /// "release", "devopt" or "both"
     profile: String,
     gen: String,
@@ -877,7 +881,11 @@ impl Case {
         m.insert("input_bytes".into(), json!(self.input.len()));
         m.insert(
             "entry".into(),
-            json!(self.entry.map(|e| ENTRIES[e]).unwrap_or("*")),
+            match self.entries.as_slice() {
+                [] => json!("*"),
+                [e] => json!(ENTRIES[*e]),
+                es => json!(es.iter().map(|e| ENTRIES[*e]).collect::<Vec<_>>()),
+            },
         );
         m.insert("profile".into(), json!(self.profile));
         m.insert("generator".into(), json!(self.gen));
@@ -888,13 +896,22 @@ impl Case {
             Some(s) => s.to_string(),
             None => from_parts(j.get("input_parts")?)?,
         };
-        let entry = match j.get("entry").and_then(|s| s.as_str()) {
-            None | Some("*") => None,
-            Some(n) => Some(entry_index(n)?),
+        let entries = match j.get("entry") {
+            None => vec![],
+            Some(Json::String(n)) if n == "*" => vec![],
+            Some(Json::String(n)) => vec![entry_index(n)?],
+            Some(Json::Array(a)) => {
+                let mut v = Vec::new();
+                for x in a {
+                    v.push(entry_index(x.as_str()?)?);
+                }
+                v
+            }
+            Some(_) => return None,
         };
         Some(Case {
             input,
-            entry,
+            entries,
             profile: j.get("profile").and_then(|s| s.as_str()).unwrap_or("both").to_string(),
             gen: j.get("generator").and_then(|s| s.as_str()).unwrap_or("").to_string(),
         })
@@ -1116,9 +1133,10 @@ fn run_case(c: &Case, verbose: bool) -> (Vec<Violation>, Vec<String>) {
             Err(why) => notes.push(format!("devopt profile not run: {}", why)),
         }
     }
-    let entries: Vec<usize> = match c.entry {
-        Some(e) => vec![e],
-        None => (0..NE).collect(),
+    let entries: Vec<usize> = if c.entries.is_empty() {
+        (0..NE).collect()
+    } else {
+        c.entries.clone()
     };
     let input = Arc::new(c.input.clone());
     let mut jobs: Vec<(Bin, usize)> = Vec::new();
@@ -1153,7 +1171,7 @@ fn run_case(c: &Case, verbose: bool) -> (Vec<Violation>, Vec<String>) {
             notes.push(format!("harness: {}", x));
         }
         let mut cc = c.clone();
-        cc.entry = Some(e);
+        cc.entries = vec![e];
         cc.profile = b.name.to_string();
         let line;
         match r {
@@ -2035,7 +2053,7 @@ fn explore_impl(cli: &Cli, st: &mut Stats) {
         iso: Mutex::new(Vec::new()),
         iso_count: AtomicUsize::new(0),
         iso_cap: if quick { 24 } else { 160 },
-        attr_rerun_left: AtomicUsize::new(if quick { 0 } else { 24 }),
+        attr_rerun_left: AtomicUsize::new(if quick { 0 } else { 6 }),
         open_sigs: open_sigs.clone(),
         sem: (Mutex::new((cli.threads / 2).max(2)), Condvar::new()),
     });
@@ -2060,7 +2078,7 @@ fn explore_impl(cli: &Cli, st: &mut Stats) {
     if gen_enabled("multibyte-at-token-boundary") {
         let mut texts: Vec<&str> = corpus.embedded.iter().map(|(_, s)| s.as_str()).collect();
         if !quick {
-            for (_, s) in corpus.seeds.iter().filter(|(_, s)| s.len() <= 700) {
+            for (_, s) in corpus.seeds.iter().filter(|(_, s)| s.len() <= 400).take(150) {
                 texts.push(s);
             }
         }
@@ -2108,12 +2126,12 @@ fn explore_impl(cli: &Cli, st: &mut Stats) {
     //      from one queue by the worker threads; the SET of inputs depends on the seed only ----
     let total = |q: u64, t: u64| cli.n(q, t) as usize;
     let plan: Vec<(&'static str, usize)> = vec![
-        ("raw-bytes", total(6_000, 150_000)),
-        ("token-soup", total(1_500, 20_000)),
-        ("template-soup", total(8_000, 200_000)),
-        ("mutation", total(8_000, 200_000)),
-        ("bracket-nesting", total(1_000, 15_000)),
-        ("chain-short", total(1_500, 30_000)),
+        ("raw-bytes", total(5_000, 100_000)),
+        ("token-soup", total(1_200, 12_000)),
+        ("template-soup", total(7_000, 120_000)),
+        ("mutation", total(5_000, 120_000)),
+        ("bracket-nesting", total(500, 8_000)),
+        ("chain-short", total(1_200, 20_000)),
     ];
     let nstreams: usize = if quick { 96 } else { 768 };
     enum Work {
@@ -2138,7 +2156,10 @@ fn explore_impl(cli: &Cli, st: &mut Stats) {
         work.push(Work::Stream(j));
     }
     let next = AtomicUsize::new(0);
-    let nthreads = cli.threads;
+    // the pinned CPU-hang witnesses run concurrently, each pinning one core for 120 CPU-seconds
+    let busy = open_sigs.iter().filter(|s| s.contains("|cpu>")).count();
+    let nthreads = cli.threads.saturating_sub(busy).max(cli.threads / 2).max(1);
+    st.add("worker_threads", nthreads as u64);
     let systematic = &systematic;
     let corpus = &corpus;
     let shr = &sh;
@@ -2248,7 +2269,7 @@ fn explore_impl(cli: &Cli, st: &mut Stats) {
                     }
                     let case = Case {
                         input: (*r.input).clone(),
-                        entry: Some(r.entry),
+                        entries: vec![r.entry],
                         profile: profile.to_string(),
                         gen: r.gen.to_string(),
                     };
@@ -2291,7 +2312,7 @@ fn explore_impl(cli: &Cli, st: &mut Stats) {
                         };
                         let mut case = Case {
                             input: (*f.input).clone(),
-                            entry: Some(f.entry),
+                            entries: vec![f.entry],
                             profile: profile.to_string(),
                             gen: f.gens.iter().copied().collect::<Vec<_>>().join(","),
                         };
@@ -2419,7 +2440,7 @@ impl Check for C05 {
     }
     fn rule(&self) -> String {
         format!(
-            "Each input (UTF-8, <= 4096 bytes) is given to all 14 calls ({}) in a release and in a devopt (debug-assertions + overflow-checks) worker child on the main thread with an 8 MiB stack; evaluations = inputs, pairs::<profile> = (input, call) executions. Generators: raw bytes -> lossy UTF-8; token soup over GRL keywords/operators/delimiters/quotes/digits/multi-byte characters; valid frames of every input language with soup in the slots; 1-4 stacked mutations (splice, truncate, cut, duplicate, delete, swap, hostile character at a token boundary, replace, token insert/delete, short chain) of valid texts (every rule/query block of the repository's *.grl files plus hand-written seeds of all languages); bracket nesting of depth 1..=32 (balanced and unbalanced) around random token spans; short prefix chains (2..=64 repetitions) of {} units in {} contexts — all SAMPLED with the seed. SYSTEMATIC: a 2-, 3-, 4-byte or combining character inserted at every token boundary of the hand-written seeds (quick: one of the four per boundary; thorough: all four, plus every corpus text <= 700 bytes); every character-boundary truncation of selected seeds; the (unit x context) grid of prefix chains at the FULL 4 KiB length (quick: a sixth of the grid rotated by the seed; thorough: the whole grid). An input is non-trivial when at least one call returned a non-empty value or panicked/died (i.e. some parser engaged with it); distinct by input text.",
+            "Each input (UTF-8, <= 4096 bytes) is given to all 14 calls ({}) in a release and in a devopt (debug-assertions + overflow-checks) worker child on the main thread with an 8 MiB stack; evaluations = inputs, pairs::<profile> = (input, call) executions. Generators: raw bytes -> lossy UTF-8; token soup over GRL keywords/operators/delimiters/quotes/digits/multi-byte characters; valid frames of every input language with soup in the slots; 1-4 stacked mutations (splice, truncate, cut, duplicate, delete, swap, hostile character at a token boundary, replace, token insert/delete, short chain) of valid texts (every rule/query block of the repository's *.grl files plus hand-written seeds of all languages); bracket nesting of depth 1..=32 (balanced and unbalanced) around random token spans; short prefix chains (2..=64 repetitions) of {} units in {} contexts — all SAMPLED with the seed. SYSTEMATIC: a 2-, 3-, 4-byte or combining character inserted at every token boundary of the hand-written seeds (quick: one of the four per boundary; thorough: all four, plus the first 150 corpus texts of <= 400 bytes); every character-boundary truncation of selected seeds; the (unit x context) grid of prefix chains at the FULL 4 KiB length (quick: a sixth of the grid rotated by the seed; thorough: the whole grid). An input is non-trivial when at least one call returned a non-empty value or panicked/died (i.e. some parser engaged with it); distinct by input text.",
             ENTRIES.join(", "),
             CHAIN_UNITS.len(),
             CHAIN_CONTEXTS.len()
@@ -2453,7 +2474,7 @@ impl Check for C05 {
             }];
         };
         if cli.replay.is_some() {
-            out!("REPLAY C05: {} bytes, entry {}, profile {}", c.input.len(), c.entry.map(|e| ENTRIES[e]).unwrap_or("*"), c.profile);
+            out!("REPLAY C05: {} bytes, entry {}, profile {}", c.input.len(), if c.entries.is_empty() { "*".to_string() } else { c.entries.iter().map(|e| ENTRIES[*e]).collect::<Vec<_>>().join(", ") }, c.profile);
             let (vs, notes) = run_case(&c, true);
             for n in notes {
                 out!("  note: {}", n);
